@@ -1,7 +1,7 @@
 (* PropC04.v — C04: queue positions never regress or get reused: any history of calls WITH CLEAN RESTARTS ANYWHERE (from a fresh directory, hist_ok); crash recovery rests on C02.
    Statements only; each theorem is closed by `exact <lemma>`; proofs live in the imported files. *)
 From Coq Require Import Lia NArith List.
-From MRL Require Import Bytes Params Names Frame Record Mem Spec Rolling Log Hist SpecRefine QueueIso RestartInv RestartFinal RestartCorollaries.
+From MRL Require Import Bytes Params Names Frame Record Mem Spec Rolling Log Hist SpecRefine QueueIso RestartInv RestartFinal RestartCorollaries CrashCorollaries PersistSurvive CrashAtomic DamageAtomic.
 
 (* specification level: next position never decreases within an incarnation; last positions returned by appends strictly increase and lie in [old next, new next) *)
 Theorem C04_spec_next_monotone :
@@ -183,4 +183,118 @@ Theorem C04_next_position_survives_restart :
     WriterProofs.is_io out' = false -> exists n' : N, out' = OutAppend l n').
 Proof. exact next_position_survives_restart. Qed.
 Print Assumptions C04_next_position_survives_restart.
+
+(* crash half, any policy: after recovery from any crash image the next position of every queue is the specification's after some prefix of the history, and for a queue not deleted it is never below the next position at the persist point *)
+Theorem C04_crash_next_positions :
+    forall P : params,
+    7 < BS P ->
+    BS P <= 65542 ->
+    1 <= NB P ->
+    (forall (t : byte) (p : bytes), crcf P t p < 2 ^ 32) ->
+    L_GC P = false ->
+    L_IO P = false ->
+    L_SHORT P = false ->
+    TornProofs.no_zero_collision P ->
+    forall (st0 : state) (G0 : ghost),
+    Inv P st0 G0 ->
+    w_pending (s_wr st0) = [] ->
+    forall h : list (op * bool),
+    GhostLog.hist_wf P st0 h ->
+    RestartWrite.stream_bound P G0 (map snd (GhostLog.run_log P st0 h)) ->
+    CB P st0 h ->
+    forall evs : list event,
+    c_ev (w_ctx (s_wr (fst (run P st0 h)))) = rev evs ++ c_ev (w_ctx (s_wr st0)) ->
+    forall (cut k : N) (pol : policy) (hint : list bytes),
+    exists (m : nat) (st_r : state),
+    (m <= length h)%nat /\
+    open P (fold_left Driver.apply_event (Driver.crash_events evs cut k) (c_fs (w_ctx (s_wr st0)))) None
+    pol hint = OpenOk st_r /\
+    (forall q : bytes,
+    log_next st_r q = next_or0 (s_get (fst (s_run (abs_qs (s_qs st0)) (firstn m (sops h)))) q) /\
+    log_last_position st_r q = s_last_position (fst (s_run (abs_qs (s_qs st0)) (firstn m (sops h)))) q) /\
+    (forall q : bytes,
+    log_next st_r q = log_next (fst (run P st0 (firstn m h))) q /\
+    log_last_position st_r q = log_last_position (fst (run P st0 (firstn m h))) q) /\
+    (forall q : bytes,
+    log_never_deleted q h (snd (run P st0 h)) ->
+    log_next st0 q <= log_next st_r q /\ (qs_get (s_qs st0) q <> None -> qs_get (s_qs st_r) q <> None)).
+Proof. exact crash_next_positions. Qed.
+Print Assumptions C04_crash_next_positions.
+
+(* if call i persisted and the crash came after it returned, recovered next positions are at least those after call i *)
+Theorem C04_crash_next_after_persist :
+    forall P : params,
+    7 < BS P ->
+    BS P <= 65542 ->
+    1 <= NB P ->
+    (forall (t : byte) (p : bytes), crcf P t p < 2 ^ 32) ->
+    L_GC P = false ->
+    L_IO P = false ->
+    L_SHORT P = false ->
+    TornProofs.no_zero_collision P ->
+    forall (st0 : state) (G0 : ghost),
+    Inv P st0 G0 ->
+    w_pending (s_wr st0) = [] ->
+    forall h : list (op * bool),
+    GhostLog.hist_wf P st0 h ->
+    RestartWrite.stream_bound P G0 (map snd (GhostLog.run_log P st0 h)) ->
+    CB P st0 h ->
+    forall evs : list event,
+    c_ev (w_ctx (s_wr (fst (run P st0 h)))) = rev evs ++ c_ev (w_ctx (s_wr st0)) ->
+    forall (i : nat) (evs_i : list event),
+    (i <= length h)%nat ->
+    let st_i := fst (run P st0 (firstn i h)) in
+    w_pending (s_wr st_i) = [] ->
+    c_ev (w_ctx (s_wr st_i)) = rev evs_i ++ c_ev (w_ctx (s_wr st0)) ->
+    forall (cut k : N) (pol : policy) (hint : list bytes),
+    lenN evs_i <= cut ->
+    exists (m : nat) (st_r : state),
+    (i <= m)%nat /\
+    (m <= length h)%nat /\
+    open P (fold_left Driver.apply_event (Driver.crash_events evs cut k) (c_fs (w_ctx (s_wr st0)))) None
+    pol hint = OpenOk st_r /\
+    (forall q : bytes,
+    log_next st_r q = next_or0 (s_get (fst (s_run (abs_qs (s_qs st0)) (firstn m (sops h)))) q)) /\
+    (forall q : bytes, log_next st_r q = log_next (fst (run P st0 (firstn m h))) q) /\
+    (forall q : bytes,
+    log_never_deleted q (skipn i h) (snd (run P st_i (skipn i h))) ->
+    log_next st_i q <= log_next st_r q /\
+    (qs_get (s_qs st_i) q <> None -> qs_get (s_qs st_r) q <> None)).
+Proof. exact crash_next_after_persist. Qed.
+Print Assumptions C04_crash_next_after_persist.
+
+(* Always policies: recovered next positions are those of the state before or after the in-flight call *)
+Theorem C04_crash_next_always :
+    forall P : params,
+    7 < BS P ->
+    BS P <= 65542 ->
+    1 <= NB P ->
+    (forall (t : byte) (p : bytes), crcf P t p < 2 ^ 32) ->
+    L_GC P = false ->
+    L_IO P = false ->
+    L_SHORT P = false ->
+    TornProofs.no_zero_collision P ->
+    forall (a : bool) (st0 : state) (h : list hop) (st : state) (outs : list outcome)
+    (o : op) (tick : bool) (st' : state) (out : outcome),
+    open P [] None (PAlways a) [] = OpenOk st0 ->
+    hrun P st0 h = Some (st, outs) ->
+    hist_ok P st0 h ->
+    always_hist a h ->
+    GhostLog.op_wf_strict (s_qs st) o ->
+    crash_phys_bound P (s_wr st) (map snd (GhostLog.step_log P st o)) (abs_qs (s_qs st)) ->
+    crash_phys_bound P (s_wr st) (map snd (GhostLog.step_log P st o)) (abs_qs (s_qs st')) ->
+    step P st o tick = (st', out) ->
+    exists evs : list event,
+    c_ev (w_ctx (s_wr st')) = rev evs ++ c_ev (w_ctx (s_wr st)) /\
+    (forall (cut k : N) (pol : policy) (hint : list bytes),
+    exists st_r : state,
+    open P (fold_left Driver.apply_event (Driver.crash_events evs cut k) (c_fs (w_ctx (s_wr st))))
+    None pol hint = OpenOk st_r /\
+    ((forall q : bytes,
+    log_next st_r q = log_next st q /\ log_last_position st_r q = log_last_position st q) \/
+    (forall q : bytes,
+    log_next st_r q = log_next st' q /\ log_last_position st_r q = log_last_position st' q)) /\
+    (forall q : bytes, l_deleted q (o, tick) out = false -> log_next st q <= log_next st_r q)).
+Proof. exact crash_next_always. Qed.
+Print Assumptions C04_crash_next_always.
 
